@@ -177,9 +177,113 @@ def run(chk):
                             chk.broke(f"correspondence concurrency model ({mode}, {kind})",
                                       f"{label}: A stopped at '{point}': the code gives `{want}`, the model `{out}`", rep)
                 chk.traces_validated += 1
+    http_threads(chk, quick)
     chk.assumptions.append("pre-emption is explored at the yield points between the phases of an operation; inside one "
                            "phase (a dulwich call, a file rename) operations are taken as atomic; two operations per "
                            "schedule, one pre-emption")
+
+
+def http_pairs(e0_quoted):
+    """pairs of HTTP requests (method, path, headers, body) on the default calendar"""
+    P = "/user/calendars/calendar/"
+    ct = {"Content-Type": "text/calendar"}
+    put = lambda name, uid, summ, extra=None: ("PUT", P + name, dict(ct, **(extra or {})), body(uid, summ).encode())
+    return [
+        ("http-two-updates-if-match-same-etag", put("a.ics", "ua", "A", {"If-Match": e0_quoted}),
+         put("a.ics", "ua", "B", {"If-Match": e0_quoted})),
+        ("http-two-updates-same-uid-different-names", put("x.ics", "dup", "x"), put("y.ics", "dup", "y")),
+        ("http-update-vs-delete-if-match", put("a.ics", "ua", "A", {"If-Match": e0_quoted}),
+         ("DELETE", P + "a.ics", {"If-Match": e0_quoted}, b"")),
+        ("http-two-creates", put("x.ics", "ux", "x"), put("y.ics", "uy", "y")),
+    ]
+
+
+def http_state(srv):
+    from httpdrv import parse_multistatus
+    r = srv.request("PROPFIND", "/user/calendars/calendar/", {"Depth": "1", "Content-Type": "text/xml"},
+                    b'<D:propfind xmlns:D="DAV:"><D:prop><D:getetag/></D:prop></D:propfind>')
+    ms = parse_multistatus(r.body) if r.status == 207 else None
+    out = {}
+    if ms:
+        for it in ms[0]:
+            if not it["href"].endswith("/"):
+                e = it["props"].get("{DAV:}getetag")
+                out[it["href"].rsplit("/", 1)[-1]] = e[1].text if e else None
+    return out
+
+
+def http_class(status):
+    return "ok" if status in (200, 201, 204) else "refused"
+
+
+def http_threads(chk, quick):
+    """the same question through the server: two requests in flight, the first one's worker thread
+    (web.py runs store updates with asyncio.to_thread) stopped at each yield point"""
+    import threading
+    from httpdrv import make_server
+    for fe in ("aiohttp", "wsgi"):
+        def fresh():
+            root = scratch_dir()
+            srv = make_server(fe, root + "/data", prefix="/")
+            r = srv.request("PUT", "/user/calendars/calendar/a.ics", {"Content-Type": "text/calendar"},
+                            body("ua", "prior a").encode())
+            return root, srv, r.header("ETag")
+        root, srv, e0 = fresh()
+        srv.close()
+        shutil.rmtree(root, ignore_errors=True)
+        for label, ra, rb in http_pairs(e0)[: (2 if quick else 4)]:
+            # sequential outcomes, both orders
+            seq = []
+            for order in ((ra, rb), (rb, ra)):
+                root, srv, _ = fresh()
+                try:
+                    st = [http_class(srv.request(*rq).status) for rq in order]
+                    seq.append((st if order[0] is ra else st[::-1], http_state(srv)))
+                finally:
+                    srv.close()
+                    shutil.rmtree(root, ignore_errors=True)
+            # A's yield points
+            root, srv, _ = fresh()
+            try:
+                probe = concdrv.PauseFirst(None)
+                concdrv.GLOBAL_CTL[0] = probe
+                srv.request(*ra)
+                npts = probe.count
+            finally:
+                concdrv.GLOBAL_CTL[0] = None
+                srv.close()
+                shutil.rmtree(root, ignore_errors=True)
+            for i in range(npts):
+                root, srv, _ = fresh()
+                try:
+                    ctl = concdrv.PauseFirst(i, limit=8.0)
+                    concdrv.GLOBAL_CTL[0] = ctl
+                    res = {}
+                    ta = threading.Thread(target=lambda: res.__setitem__("A", srv.request(*ra).status), daemon=True)
+                    ta.start()
+                    ctl.paused.wait(10)
+                    tb = threading.Thread(target=lambda: res.__setitem__("B", srv.request(*rb).status), daemon=True)
+                    tb.start()
+                    tb.join(0.4)
+                    ctl.go.set()
+                    ta.join(30)
+                    tb.join(30)
+                    concdrv.GLOBAL_CTL[0] = None
+                    got = ([http_class(res.get("A", 0)), http_class(res.get("B", 0))], http_state(srv))
+                finally:
+                    concdrv.GLOBAL_CTL[0] = None
+                    srv.close()
+                    shutil.rmtree(root, ignore_errors=True)
+                chk.count("http-schedules:" + fe)
+                chk.case(("http", fe, label, i), nontrivial=True)
+                if not any(got == s for s in seq):
+                    chk.violation(f"C05:not-serialisable:http-threads:{fe}",
+                                  f"{fe}: {label}: request A's worker stopped at yield point {i} ({ctl.points[-1] if ctl.points else '?'}), "
+                                  f"request B sent, A released: answers {got[0]}, members {got[1]} — neither sequential order gives this "
+                                  f"(A;B: {seq[0]}, B;A: {seq[1]})",
+                                  {"level": "http", "frontend": fe, "scenario": label, "A": [ra[0], ra[1], ra[2]],
+                                   "B": [rb[0], rb[1], rb[2]], "paused_at": i, "statuses": [res.get("A"), res.get("B")],
+                                   "members": got[1], "sequential": [[s[0], s[1]] for s in seq]})
 
 
 def penc(s):
